@@ -252,7 +252,17 @@ br_sslio_close(br_sslio_context *ctx)
 		 */
 		size_t len;
 
-		run_until(ctx, BR_SSL_RECVAPP);
+		if (run_until(ctx, BR_SSL_RECVAPP) < 0
+			&& br_ssl_engine_current_state(ctx->engine)
+			!= BR_SSL_CLOSED)
+		{
+			/*
+			 * Write failure after the peer's close_notify:
+			 * run_until() does not fail the engine in that
+			 * case, and nothing more can be sent.
+			 */
+			br_ssl_engine_fail(ctx->engine, BR_ERR_IO);
+		}
 		if (br_ssl_engine_recvapp_buf(ctx->engine, &len) != NULL) {
 			br_ssl_engine_recvapp_ack(ctx->engine, len);
 		}
